@@ -236,7 +236,7 @@ func genTime(t *rapid.T, p *partSpec) int64 {
 	return ts + int64(rapid.IntRange(-1, 1).Draw(t, "timeDelta"))
 }
 
-var listOffsetsCodes = []int16{3, 5, 6, 7, 9, 29, 43}
+var listOffsetsCodes = []int16{3, 5, 6, 7, 9, 29, 43, -1}
 
 func genConnOp(t *rapid.T, c *clusterSpec, seekHeavy, withFault bool) op {
 	live := livePartitions(c, true)
@@ -430,7 +430,7 @@ func genGroupTargets(t *rapid.T, c *clusterSpec, allowUnknown bool) []tp {
 	return out
 }
 
-var groupCodes = []int16{3, 29, 12, 28}
+var groupCodes = []int16{3, 29, -1, 12, 28}
 
 func genGroupOp(t *rapid.T, c *clusterSpec, kind string, withFault bool) op {
 	o := op{Kind: kind, Bootstrap: int32(rapid.IntRange(1, c.Brokers).Draw(t, "bootstrap")), Fresh: chance(t, "fresh", 5)}
@@ -457,7 +457,7 @@ func genGroupOp(t *rapid.T, c *clusterSpec, kind string, withFault bool) op {
 		}
 		if withFault {
 			k := pick(t, "faultTarget", ks)
-			o.Fault = fault{Kind: "code", Code: pick(t, "faultCode", groupCodes[:2]), Topic: k.t, Partition: k.p, Req: -1}
+			o.Fault = fault{Kind: "code", Code: pick(t, "faultCode", groupCodes[:3]), Topic: k.t, Partition: k.p, Req: -1}
 			if c.OffsetFetchMax >= 2 && chance(t, "groupLevel", 3) {
 				o.Fault = fault{Kind: "group-code", Code: pick(t, "groupCode", []int16{16, 15, 14, 30}), Req: -1}
 			}
